@@ -74,6 +74,7 @@ def pointwise_constants(tier):
         "Grid": "[i \\in 1..21 |-> i - 9]",
         "EqGrids": "{<<0, 1, 2, 3>>, <<-8, 0, 4, 5, 9>>, <<0, 4, 8>>, <<2, 2, 2, 6>>, <<-3, 3>>}",
         "EqMeans": "{-2, 0, 3}",
+        "EqSds": "{4, 8}",
         "MaxLen": "4",
         "WrapPos": "[i \\in 1..15 |-> i - 1]",
         "WrapData": "<<-9, -3, -2, -1, 0, 1, 2, 3, 4, 5, 6, 7, 8, 9, 12>>",
@@ -97,6 +98,7 @@ PW_SECTIONS = {
     "Wrap": ["WrapOnlyGivenValues"],
     "NormExact": ["ExactStrictlyIncreasing", "ExactRoundTrip"],
     "Range": ["ImageIsValid"],
+    "Fix": ["FixInsideRanges"],
     "Force": ["ForceMomentsExact"],
 }
 
@@ -111,7 +113,7 @@ def pointwise_jobs(sc, tier, sections):
     for s in sections:
         cfg = base + "INIT Init%s\nNEXT Next\n" % s + "".join("INVARIANT %s\n" % i for i in PW_SECTIONS[s])
         jobs.append((("pw", s), sc, "MC_Pointwise", cfg,
-                     dict(workers=2, timeout=900, dump=("states", sc.path("PW_%s.dump" % s)))))
+                     dict(workers=1, timeout=900, heap="2g", dump=("states", sc.path("PW_%s.dump" % s)))))
     return jobs
 
 
@@ -149,8 +151,15 @@ class _Collect:
         rep.nontrivial |= self.nontrivial
         for s in self.samples:
             rep.sample(s, cap=8)
-        for key, what, rp in self.violations:
-            rep.violation(key, what, rp)
+        for key, what, rp in sorted(self.violations, key=lambda v: v[0]):
+            # one defect usually shows under many signatures: report the first MAX_REPORTED, count the rest
+            if len(rep.violations) + len(rep.known_hit) < MAX_REPORTED or key in rep.open_keys \
+                    or any(k == key for k, _w, _p in rep.violations):
+                rep.violation(key, what, rp)
+            else:
+                rep.extra.setdefault("further_violation_signatures_not_listed", [])
+                if key not in rep.extra["further_violation_signatures_not_listed"]:
+                    rep.extra["further_violation_signatures_not_listed"].append(key)
         for d in self.drift:
             rep.drift_msg(d)
         for k, v in self.notes.items():
@@ -189,6 +198,9 @@ def replay_discrete(col, states, tier):
             elif mode == "equal":
                 thresholds = "equal"
                 kw = dict(mean=thr[0] / QU, var=(1.0, 4.0, 0.25)[(thr[0] + n) % 3])
+            elif mode == "equal_n":   # 3 / 4 classes, thr = <<mean, sd>>
+                thresholds = "equal"
+                kw = dict(mean=thr[0] / QU, var=(thr[1] / QU) ** 2)
             else:  # equal_sample: the mean is the sample mean of the input
                 thresholds = "equal"
                 kw = dict(mean=None, var=(None, 1.0)[len(grid) % 2])
@@ -216,11 +228,11 @@ def replay_discrete(col, states, tier):
                                   "array_discrete(values=%r, thresholds=%r%s): input %r gives %r, documented %r "
                                   "(classes are thr[k-1] < f <= thr[k])"
                                   % (values, thresholds, "".join(", %s=%r" % kv for kv in kw.items()),
-                                     f[bad], out[bad], exp[bad]), rp)
+                                     float(f[bad]), float(out[bad]), float(exp[bad])), rp)
             if n > 1:
                 col.nontrivial.add(("discrete", mode, tuple(vals), tuple(thr)))
         col.traces += 1
-        if mode == "user" and n == 3:
+        if mode == "user" and n == 3 and len(set(vals)) == 3 and vals[0] > vals[1]:
             col.sample({"section": "discrete", "values": [v / QU for v in vals], "thresholds": [t / QU for t in thr],
                         "inputs": f.tolist(), "documented_result": exp.tolist()}, cap=1)
 
@@ -335,13 +347,15 @@ def replay_exact(col, states, pid):
                 continue
             col.evals += len(xs)
             col.traces += 1
-            out = array_boxcox(ys.copy(), lmbda=float(k))
-            ok = _relclose(out, xs, 1e-12)
-            if not ok.all():
-                i = int(np.flatnonzero(~ok)[0])
-                col.violation("boxcox-inverts:lmbda=%d:value" % k,
-                              "array_boxcox(%r, lmbda=%d) = %r, but %r = BoxCox(lmbda=%d).normalize(%r) exactly"
-                              % (ys[i], k, out[i], c["ys"][i], k, xs[i]), rp)
+            # shift: "the field will be shifted by that value before transformation"
+            for sh in (0.0, 1.0, -0.5):
+                out = array_boxcox(ys - sh, lmbda=float(k), shift=sh) if sh else array_boxcox(ys.copy(), lmbda=float(k))
+                ok = _relclose(out, xs, 1e-12)
+                if not ok.all():
+                    i = int(np.flatnonzero(~ok)[0])
+                    col.violation("boxcox-inverts:lmbda=%d:%s" % (k, "shifted-value" if sh else "value"),
+                                  "array_boxcox(%r, lmbda=%d, shift=%r) = %r, but %s/%s = BoxCox(lmbda=%d).normalize(%r) exactly"
+                                  % (float(ys[i] - sh), k, sh, float(out[i]), c["ys"][i][0], c["ys"][i][1], k, float(xs[i])), rp)
             col.nontrivial.add(("boxcox-exact", k))
             continue
         nrm = make_norm(name, float(k), s)
@@ -353,7 +367,7 @@ def replay_exact(col, states, pid):
             i = int(np.flatnonzero(~ok)[0])
             col.violation("exact:%s:lmbda=%d:normalize" % (name, k),
                           "%r.normalize(%r) = %r, documented formula gives exactly %s/%s"
-                          % (nrm, xs[i], out[i], c["ys"][i][0], c["ys"][i][1]), rp)
+                          % (nrm, float(xs[i]), float(out[i]), c["ys"][i][0], c["ys"][i][1]), rp)
         elif len(out) > 1 and not np.all(np.diff(out) > 0):
             col.violation("monotone:%s:lmbda=%d" % (name, k),
                           "%r.normalize is not strictly increasing on %s: %s" % (nrm, xs.tolist(), out.tolist()), rp)
@@ -363,11 +377,31 @@ def replay_exact(col, states, pid):
             i = int(np.flatnonzero(~ok)[0])
             col.violation("exact:%s:lmbda=%d:denormalize" % (name, k),
                           "%r.denormalize(%s/%s = %r) = %r, documented inverse gives exactly %r"
-                          % (nrm, c["ys"][i][0], c["ys"][i][1], ys[i], back[i], xs[i]), rp)
+                          % (nrm, c["ys"][i][0], c["ys"][i][1], float(ys[i]), float(back[i]), float(xs[i])), rp)
         col.nontrivial.add(("exact", name, k, tuple(c["shift"])))
         if name == "YeoJohnson" and k == -1:
             col.sample({"section": "exact", "normalizer": repr(nrm), "x": xs.tolist(),
                         "exact_y": ["%d/%d" % tuple(q) for q in c["ys"]]}, cap=1)
+
+
+def replay_fix(col, states):
+    """reference points x0 |-> 0: exact also for the transcendental pairs"""
+    for st in states:
+        c = st["c"]
+        lam, sh, x = _f(c["lam"]), _f(c["shift"]), _f(c["x"])
+        nrm = make_norm(c["norm"], lam, sh)
+        rp = {"section": "fix", "case": c}
+        col.evals += 2
+        col.traces += 1
+        y = float(nrm.normalize(np.array([x]))[0])
+        if not abs(y) <= 1e-12:
+            col.violation("exact:%s:%s:reference-point:normalize" % (c["norm"], lamclass(c["norm"], lam)),
+                          "%r.normalize(%r) = %r, the documented formula gives exactly 0" % (nrm, x, y), rp)
+        b = float(nrm.denormalize(np.array([0.0]))[0])
+        if not abs(b - x) <= 1e-12:
+            col.violation("exact:%s:%s:reference-point:denormalize" % (c["norm"], lamclass(c["norm"], lam)),
+                          "%r.denormalize(0.0) = %r, the documented inverse gives exactly %r" % (nrm, b, x), rp)
+        col.nontrivial.add(("fix", c["norm"], tuple(c["lam"]), tuple(c["shift"])))
 
 
 def replay_range(col, states, tier):
@@ -406,12 +440,13 @@ def replay_range(col, states, tier):
                 col.drift_msg("%r.%s(%s, %s): out-of-range warning %s although the table %s an out-of-range entry"
                               % (nrm, direction, arr.reshape(-1).tolist(), how, "emitted" if warned else "missing",
                                  "has" if "OutOfRange" in cl else "has no"))
-            for x, o, k in zip(arr.reshape(-1), out, cl):
+            for x, o, k in zip(arr.reshape(-1).tolist(), out.tolist(), cl):
                 if k in ("NaN", "OutOfRange"):
                     if not np.isnan(o):
                         col.violation(sig + (":nan-in" if k == "NaN" else ":out-of-range"),
                                       "%r.%s(%r) = %r (%s batch), documented: %s input gives NaN (valid range %s)"
-                                      % (nrm, direction, x, o, how, k, getattr(nrm, direction + "_range")), rp)
+                                      % (nrm, direction, x, o, how, k,
+                                         tuple(float(e) for e in getattr(nrm, direction + "_range"))), rp)
                 elif k == "Valid":
                     if not np.isfinite(o):
                         col.violation(sig, "%r.%s(%r) = %r (%s batch) although %r lies inside the documented range"
@@ -431,7 +466,8 @@ def replay_range(col, states, tier):
                 other = "denormalize" if direction == "normalize" else "normalize"
                 col.violation("roundtrip:%s:%s:%s" % (name, lc, other),
                               "%r: %s(%s(%r)) = %r instead of %r (intermediate %r)"
-                              % (nrm, other, direction, valid[i], back[i], valid[i], fn(valid[i:i + 1].copy())[0]), rp)
+                              % (nrm, other, direction, float(valid[i]), float(back[i]), float(valid[i]),
+                                 float(fn(valid[i:i + 1].copy())[0])), rp)
         col.traces += 1
         col.nontrivial.add(("range", name, lam, shift, direction))
         if name == "BoxCoxShift" and lamf < 0 and sf > 0 and direction == "denormalize":
@@ -513,7 +549,7 @@ def relation_boxcox(col, range_states):
         col.evals += 1
         if abs(back - x) > 1e-9 * max(1.0, abs(x)):
             col.violation("boxcox-inverts:%s:relation" % lamclass("BoxCox", lam),
-                          "array_boxcox(BoxCox(lmbda=%r).normalize(%r) = %r, lmbda=%r) = %r" % (lam, x, y[0], lam, back),
+                          "array_boxcox(BoxCox(lmbda=%r).normalize(%r) = %r, lmbda=%r) = %r" % (lam, x, float(y[0]), lam, back),
                           {"section": "boxcox-relation", "lmbda": lam, "x": x})
         seen.add((lam, x))
     col.traces += len(seen)
@@ -605,6 +641,7 @@ KOFF = [(1.0, 1.0), (0.0, 2.0), (2.0, 0.0), (4.0, 1.0), (2.5, 1.5)]
 CONDZ = np.array([0.5, -0.25, 1.0, -1.0, 0.25])      # conditioning values before post-processing
 SEED = 20240519
 _PAR = int(os.environ.get("VERIF_PAR", "14"))   # development: VERIF_PAR=4
+MAX_REPORTED = 16
 SILL = 2.25
 FLAVOURS = ("LogNormal", "YeoJohnson", "Modulus")
 BIN_EDGES = [0.0, 1.5, 3.0, 4.5, 6.0]
@@ -747,8 +784,13 @@ class Instance:
             return self.norm.normalize(np.array(arr, dtype=float, copy=True))
         if tok.startswith("fn:"):
             _fn, method, variant, mean_arg = tok.split(":")
-            return np.asarray(array_fn(method, variant, mean_arg, np.array(arr, dtype=float, copy=True), self.cmean),
-                              dtype=float)
+            data = np.array(arr, dtype=float, copy=True)
+            out = np.array(array_fn(method, variant, mean_arg, data, self.cmean), dtype=float)
+            if method in ("binary", "discrete") and np.isnan(data).any():
+                # array_discrete leaves the result of NaN inputs uninitialised: unspecified positions
+                self.undef = np.isnan(data) if self.undef is None else (self.undef | np.isnan(data))
+                out[np.isnan(data)] = np.nan
+            return out
         raise KeyError(tok)
 
     def evaluate(self, term, at=False):
@@ -758,6 +800,8 @@ class Instance:
         if self.stacked:
             return np.array([self._eval1(a, term, X, Y) for a in arr])
         return self._eval1(arr, term, X, Y)
+
+    undef = None   # positions whose value the documentation leaves unspecified (set by step)
 
     def _eval1(self, arr, term, X, Y):
         arr = np.array(arr, dtype=float, copy=True)
@@ -799,7 +843,11 @@ class Instance:
                 # boundary after adding / removing the (quarter-valued) mean and trend
                 vals = np.array([-1.05, -0.55, 0.1, 0.3, 0.47, 0.95, 1.43, 1.93, -0.8, 0.72, 1.2, -0.3])
                 self.bases["in"] = vals[(np.arange(n) * 5) % len(vals)].reshape(self.shape)
-                self.make = lambda: Field(self.model, value_type=self.cfg["vtype"], **self._common())
+                if phase == "calls" and self.cfg["mean"] == "none":
+                    # a field object without covariance model
+                    self.make = lambda: Field(dim=2, value_type=self.cfg["vtype"], **self._common())
+                else:
+                    self.make = lambda: Field(self.model, value_type=self.cfg["vtype"], **self._common())
             elif kind == "SRF":
                 self.model = gs.Gaussian(dim=2, var=SILL, len_scale=[2.0, 1.0], angles=0.5)
                 gen = dict(generator="VectorField") if self.vector else {}
@@ -808,7 +856,7 @@ class Instance:
                 self.bases["raw"] = np.array(raw0(self.pos, seed=SEED, mesh_type=self.mesh, post_process=False,
                                                   store=False), copy=True)
             elif kind in ("Krige", "CondSRF"):
-                self.model = gs.Spherical(dim=2, var=SILL, len_scale=3.0)
+                self.model = gs.Exponential(dim=2, var=SILL, len_scale=2.0)   # analytic mode sampling, well conditioned
                 # conditioning values: a valid output of the pipeline, so that pre-processing is defined
                 self.bases["cond"] = None
                 z = CONDZ.copy()
@@ -876,6 +924,7 @@ def replay_history(col, kind, cfg, hist, flavour, phase, inst_cache, verbose=Fal
     gs = inst.gs
     obj = inst.make() if kind != "Vario" else None
     mine = {}      # the driver's copies of every stored field (protects against in-place changes, C20)
+    unspec = {}    # name -> positions whose value is unspecified (a discrete transformation of NaN)
     steps = 0
     ctx = "%s[%s,%s,%s,%s%s]" % (kind, cfgclass(cfg), cfg["vtype"], cfg["mesh"], flavour if cfg["norm"] else "no-normalizer",
                                  "," + cfg["ktype"] if cfg["ktype"] != "-" else "")
@@ -887,11 +936,14 @@ def replay_history(col, kind, cfg, hist, flavour, phase, inst_cache, verbose=Fal
                 "hist": hist[:i + 1]}
 
     def sig(rec, obs):
+        # signature = operation kind : configuration class (which components are present) : observable
+        present = "+".join(n for n, on in (("mean", cfg["mean"] != "none"), ("normalizer", cfg["norm"]),
+                                           ("trend", cfg["trend"] != "none")) if on) or "plain"
         if rec["op"] == "transform":
-            return "transform:%s:process=%d,keep_mean=%d:%s:%s:%s:%s" % (
-                rec["method"], rec["process"], rec["keepMean"], kind, cfgclass(cfg), cfg["vtype"], obs)
-        return "%s:%s%s:pp=%d:%s:%s,%s:%s" % (rec["op"], kind, ("/" + cfg["ktype"]) if cfg["ktype"] != "-" else "",
-                                              rec["pp"], cfgclass(cfg), cfg["vtype"], cfg["mesh"], obs)
+            return "transform:%s:process=%d,keep_mean=%d:%s:%s" % (
+                rec["method"], rec["process"], rec["keepMean"], present, obs)
+        return "%s:%s:post_process=%d:%s:%s" % (rec["op"] + ("-only_mean" if rec["only"] else ""), kind, rec["pp"],
+                                                present, obs)
 
     def check_value(i, rec, got, entry, what, obs):
         """compare a real array with the documented term(s)"""
@@ -1051,11 +1103,21 @@ def replay_history(col, kind, cfg, hist, flavour, phase, inst_cache, verbose=Fal
                     break
                 else:
                     # 1. the documented steps applied literally to the stored source array
+                    inst.undef = None
                     lit = inst._eval1(mine[src], [None] + list(rec["toks"]), inst.XX, inst.YY)
+                    und, retm = inst.undef, ret
+                    if unspec.get(src) is not None:
+                        und = unspec[src] if und is None else (und | unspec[src])
+                    if und is not None:
+                        col.note("discrete-transformation-of-NaN-data:positions-unspecified", int(und.sum()))
+                        lit = np.where(und, np.nan, lit)
+                        retm = np.where(und, np.nan, np.asarray(ret, dtype=float))
+                    if rec["save"]:
+                        unspec[rec["name"]] = und
                     if verbose:
                         print("    steps %s on the stored %r\n      real     %s\n      expected %s"
                               % (rec["toks"], src, np.asarray(ret).tolist(), lit.tolist()))
-                    if not _cmp(ret, lit, 1e-10):
+                    if not _cmp(retm, lit, 1e-10):
                         col.violation(sig(rec, "value"),
                                       "%s: %s returned %s, but the documented steps %s applied to the stored field %s give %s"
                                       % (ctx, _describe(hist[:i + 1]), np.asarray(ret).tolist(), " -> ".join(rec["toks"]) or "(none)",
@@ -1067,7 +1129,7 @@ def replay_history(col, kind, cfg, hist, flavour, phase, inst_cache, verbose=Fal
                         fin = np.isfinite(lit)
                         if verbose:
                             print("      term %s -> %s" % (rec["res"], term.tolist()))
-                        if term.shape != lit.shape or not _cmp(np.where(fin, ret, 0.0), np.where(fin, term, 0.0), 1e-8):
+                        if term.shape != lit.shape or not _cmp(np.where(fin, retm, 0.0), np.where(fin, term, 0.0), 1e-8):
                             col.violation(sig(rec, "value-vs-term"),
                                           "%s: %s returned %s, the documented term %s evaluates to %s"
                                           % (ctx, _describe(hist[:i + 1]), np.asarray(ret).tolist(), " -> ".join(rec["res"]),
@@ -1131,12 +1193,15 @@ def read_pipeline_dump(path):
 
 
 def _pipeline_worker(job):
-    tag, kind, dump, length, phase, tier, seed, cap = job
+    tag, kind, dump, length, phase, tier, seed, cap, part, parts = job
     states = read_pipeline_dump(dump)
     full = [s for s in states if len(s["hist"]) == length]
     rng = random.Random(zlib.crc32(tag.encode()) ^ seed)
+    # canonical order: the sample must not depend on the order in which TLC wrote the states
+    full.sort(key=lambda st: json.dumps([st["cfg"], st["hist"]], sort_keys=True, default=sorted))
     if cap and len(full) > cap:
         full = rng.sample(full, cap)
+    full = full[part::parts]      # large dumps are shared between several workers
     col = _Collect()
     cache = {}
     steps = 0
@@ -1159,7 +1224,7 @@ def _pipeline_worker(job):
         col.sample({"section": "pipeline", "object": kind, "configuration": s["cfg"],
                     "history": [{"call": _describe([r]), "documented_result_term": r["res"], "status": r["status"],
                                  "stored_afterwards": sorted(r["names"])} for r in s["hist"]]}, cap=1)
-    return {"tag": tag, "col": col, "steps": steps, "histories": len(full), "states": len(states)}
+    return {"tag": tag, "col": col, "steps": steps, "histories": len(full), "states": len(states), "part": part}
 
 
 # ---------------------------------------------------------------------------
@@ -1178,10 +1243,12 @@ ASSUME_C18 = [
     "in-place modification of caller arrays / stored fields (C20) is neutralised by passing copies",
 ]
 ASSUME_C19 = [
-    "NOT covered: the distribution laws (log-normal, uniform, arcsine, U-quadratic, Zinn-Harvey marginal, equal-probability "
-    "classes beyond the exact two-class case) - statements about distributions",
-    "discrete/binary cases live on the quarter-unit lattice, compared exactly; 'equal' thresholds only for two classes "
-    "(threshold = mean exactly)",
+    "NOT covered: the distribution laws (log-normal, uniform, arcsine, U-quadratic, Zinn-Harvey marginal) - statements about "
+    "distributions; 'equal' thresholds are covered for 2 classes (threshold = mean, exact) and for 3 / 4 classes through the "
+    "enclosures 0.4307 < z(2/3) < 0.4308, 0.6744 < z(3/4) < 0.6745 of the normal quantiles (a mathematical assumption of the spec)",
+    "discrete/binary cases live on the quarter-unit lattice and are compared exactly",
+    "NaN input of a discrete/binary transformation is outside the statement (array_discrete leaves those positions "
+    "uninitialised); such positions are masked and counted under open_or_degenerate_cases",
     "value lists of length 1 (a single class) are degenerate: an exception is recorded as a note, not a violation",
     "a callable mean (or, for the binary defaults and force_moments, no mean) cannot be handed to an array function: "
     "such calls are Open (history ends there, outcome counted under open_or_degenerate_cases)",
@@ -1209,6 +1276,8 @@ def _do_replay(pid, path):
         replay_exact(col, [{"c": rp["case"]}], pid)
     elif sec == "force":
         replay_force(col, [{"c": rp["case"]}])
+    elif sec == "fix":
+        replay_fix(col, [{"c": rp["case"]}])
     elif sec == "range":
         print(" re-run the check; the replay object lists the values and classes:", rp)
     for k, w, _r in col.violations:
@@ -1225,7 +1294,7 @@ def run(pid, tier, seed, replay=None):
     rep.assumptions += ASSUME_C18 if pid == "C18" else ASSUME_C19
     thorough = tier == "thorough"
     phase = "calls" if pid == "C18" else "transforms"
-    sections = ["NormExact", "Range"] if pid == "C18" else ["Discrete", "Wrap", "Force", "NormExact", "Range"]
+    sections = ["NormExact", "Range", "Fix"] if pid == "C18" else ["Discrete", "Wrap", "Force", "NormExact", "Range"]
     t0 = time.time()
     with tlc.Scratch() as sc:
         jobs = pointwise_jobs(sc, tier, sections)
@@ -1234,8 +1303,8 @@ def run(pid, tier, seed, replay=None):
             mod, cfg = pipeline_module("MC_PL_" + tag, kind, **kw)
             sc.write("MC_PL_%s.tla" % tag, mod)
             jobs.append((("pl", tag), sc, "MC_PL_" + tag, cfg,
-                         dict(workers=2, timeout=3000, dump=("states", sc.path("PL_%s.dump" % tag)))))
-        results = tlc.run_many(jobs, parallel=max(1, _PAR // 2))
+                         dict(workers=1, timeout=3000, heap="3g", dump=("states", sc.path("PL_%s.dump" % tag)))))
+        results = tlc.run_many(jobs, parallel=max(1, _PAR))   # many small models: one worker each
         print("TLC: %d jobs in %.1fs" % (len(jobs), time.time() - t0))
         for (what, tag), r in sorted(results.items()):
             tlc.must_pass(r, "%s %s" % (what, tag))
@@ -1252,6 +1321,7 @@ def run(pid, tier, seed, replay=None):
         if pid == "C18":
             replay_exact(col, dumps["NormExact"], pid)
             replay_range(col, dumps["Range"], tier)
+            replay_fix(col, dumps["Fix"])
             aux_finite_difference(col)
         else:
             replay_discrete(col, dumps["Discrete"], tier)
@@ -1272,7 +1342,10 @@ def run(pid, tier, seed, replay=None):
                 cap = 2500
             if not thorough and pid == "C18":
                 cap = 2500
-            work.append((tag, kind, sc.path("PL_%s.dump" % tag), length, phase, tier, seed, cap))
+            n = min(results[("pl", tag)].distinct, cap or 10 ** 9)
+            parts = max(1, -(-n // 4000))
+            for part in range(parts):
+                work.append((tag, kind, sc.path("PL_%s.dump" % tag), length, phase, tier, seed, cap, part, parts))
         hist_total, steps_total = 0, 0
         with mp.get_context("fork").Pool(min(_PAR, len(work))) as pool:
             for res in pool.imap_unordered(_pipeline_worker, work):
@@ -1281,6 +1354,9 @@ def run(pid, tier, seed, replay=None):
                 steps_total += res["steps"]
         rep.extra["pipeline_histories_replayed"] = hist_total
         rep.extra["pipeline_steps_executed_on_real_objects"] = steps_total
+    more = rep.extra.get("further_violation_signatures_not_listed")
+    if more:
+        print("... and %d further violation signatures (listed in the evidence file)" % len(more))
     if pid == "C18":
         rule = ("Pipeline: every maximal call history TLC enumerates per object kind x (mean none/const/callable, normalizer "
                 "on/off, trend none/const/callable) x scalar/vector x mesh type x kriging flavour (quick: a seeded sample of at "
